@@ -181,7 +181,8 @@ def Program(pid, fns, globs=(), feats=None, sings=(), host=None, imports=(), imp
 
 # ---- rendering -----------------------------------------------------------------------------
 class W:
-    def __init__(self):
+    def __init__(self, minimal=False):
+        self.minimal = minimal       # write only the parentheses the operator table requires
         self.buf = []
         self.line = 1
         self.col = 1
@@ -243,6 +244,41 @@ def flt_text(n, s):
     return "(-%s)" % t if neg else t
 
 
+def r_base(w, n, ind):
+    """the base of an index / member / method call"""
+    need = w.minimal and n.get("k") in ("bin", "un", "cast", "if", "match", "try", "block", "fnlit", "range", "asg")
+    if need:
+        w.w("(")
+    r_expr(w, n, ind)
+    if need:
+        w.w(")")
+
+
+LEVEL = {"||": 2, "&&": 3, "|": 4, "^": 5, "&": 6, "==": 7, "!=": 7, "<": 8, ">": 8, "<=": 8, ">=": 8, "<<": 9, ">>": 9,
+         "+": 10, "-": 10, "*": 11, "/": 11, "%": 11, "as": 12, "**": 13}
+
+
+def r_operand(w, n, ind, parent_level, side, parent_op=None):
+    """an operand in minimal-parentheses mode: parenthesised only where the operator table (HmsExpr) requires it"""
+    k = n.get("k")
+    need = False
+    if k == "bin" or k == "cast":
+        lv = LEVEL[n["op"]] if k == "bin" else LEVEL["as"]
+        right_assoc = parent_op == "**"
+        need = lv < parent_level or (lv == parent_level and ((side == "r") != right_assoc))
+    elif k == "un":
+        need = parent_level >= 99 or (side == "r" and parent_op in ("-", "+") and n["op"] == "-") or parent_op == "**"
+    elif k == "int" and n["v"] < 0:
+        need = False        # (negative literals are written with their own parentheses)
+    elif k in ("if", "match", "try", "block", "fnlit", "range", "asg"):
+        need = True
+    if need:
+        w.w("(")
+    r_expr(w, n, ind)
+    if need:
+        w.w(")")
+
+
 def r_expr(w, n, ind):
     k = n["k"]
     start = w.pos()
@@ -260,16 +296,25 @@ def r_expr(w, n, ind):
         w.w("none")
     elif k == "var":
         w.w(n["x"])
-    elif k == "un":
+    elif k == "un" and not w.minimal:
         w.w("(" + n["op"])
         r_expr(w, n["e"], ind)
         w.w(")")
-    elif k == "bin":
+    elif k == "bin" and not w.minimal:
         w.w("(")
         r_expr(w, n["l"], ind)
         w.w(" %s " % n["op"])
         r_expr(w, n["r"], ind)
         w.w(")")
+    elif k == "un":
+        # minimal parentheses: a prefix operator binds tighter than every binary operator
+        w.w(n["op"])
+        r_operand(w, n["e"], ind, 99, "r")
+    elif k == "bin":
+        lv = LEVEL[n["op"]]
+        r_operand(w, n["l"], ind, lv, "l", n["op"])
+        w.w(" %s " % n["op"])
+        r_operand(w, n["r"], ind, lv, "r", n["op"])
     elif k == "call":
         w.w(n["f"] + "(")
         for i, a in enumerate(n["args"]):
@@ -309,15 +354,15 @@ def r_expr(w, n, ind):
             r_expr(w, f["e"], ind)
         w.w(" }")
     elif k == "idx":
-        r_expr(w, n["e"], ind)
+        r_base(w, n["e"], ind)
         w.w("[")
         r_expr(w, n["i"], ind)
         w.w("]")
     elif k == "mem":
-        r_expr(w, n["e"], ind)
+        r_base(w, n["e"], ind)
         w.w("." + n["m"])
     elif k == "mcall":
-        r_expr(w, n["e"], ind)
+        r_base(w, n["e"], ind)
         w.w("." + n["m"] + "(")
         for i, a in enumerate(n["args"]):
             if i:
@@ -373,6 +418,9 @@ def r_expr(w, n, ind):
             w.w(" -> " + n["ret"])
         w.w(" ")
         r_block(w, n["body"], ind)
+    elif k == "cast" and w.minimal:
+        r_operand(w, n["e"], ind, LEVEL["as"], "l", "as")
+        w.w(" as %s" % n["ty"])
     elif k == "cast":
         w.w("(")
         r_expr(w, n["e"], ind)
@@ -462,9 +510,10 @@ def r_stmt(w, n, ind):
         w.mark(n["p"], start)
 
 
-def render(prog):
-    """-> (source text, spans: p -> {s:(l,c,i), e:(l,c,i)})"""
-    w = W()
+def render(prog, minimal=False):
+    """-> (source text, spans: p -> {s:(l,c,i), e:(l,c,i)}); minimal: only the parentheses the operator table requires
+    (the spans then cover the operator expression without parentheses)"""
+    w = W(minimal)
     for imp in prog.get("imports", ()):
         w.w(imp + "\n")
     for g in prog["globals"]:
